@@ -8,6 +8,8 @@ Extracts from the CURRENT sources the bodies of
     Future<void>::Future()  ~Future()  join()  abort()  isAborting()  isFinished()  isAborted()  set()   enum Future<void>::State
     Future<A>::operator const A&()  ~Future()   (the other members of Future<A> must be plain forwards to the embedded Future<void>)
     Future<void>::proc<A> / Future<A>::proc<B>: the order of body call / result store / set() / delete
+    ThreadContext::proc (the worker loop)      ThreadPool::run up to its third counter read (push loop with back-pressure, the counters;
+                                               a void helper of the class that the loop is moved into is inlined at its call)
 and the worker-count decision of ThreadPool::run (from `Atomic::increment(_pushedJobs)` on: counter arithmetic with 64-bit wrap-around and the
 decision tree obtained by symbolic execution of its statements; the effect statements stay opaque)
 (tokenizer + recursive-descent parser of the C++ subset these bodies are written in) and writes them as Lean definitions over
@@ -15,15 +17,16 @@ the state types of lean/Nstd/Future/{Ring,Model}.lean into lean/Nstd/Generated/F
 lean/Nstd/Future/PropsGen.lean proves that the generated micro-step functions ARE the hand-written model steps
 (`ringStep`, `stepFrame … (.fSet/.fRst/.fRstLoad/.fWait/.join/.joinClr/.pSetRd/.pSetX/.pSig/.evResult/…)`, `Ring.init`, `mkPool`,
 the branch taken by `runRdTc` = the translated decision tree).
-NOT translated (hand translation, tied by the step-by-step replay only): the control skeleton of ThreadPool::run (push loop, spawn and
-retire branches under the mutex, purge of the context list), ThreadContext::proc (worker loop), ~ThreadPool, startProc, Signal.cpp.
+NOT translated (hand translation, tied by the step-by-step replay only): the effect statements of ThreadPool::run after the decision
+(spawn and retire branches under the mutex, purge of the context list, Thread::start), ~ThreadPool, startProc, Signal.cpp.
 
 Micro-step compilation (push / pop / size / FastSignal::*): the body is lowered to a list of instructions; every access to a
 SHARED location (`_tail`, `_head`, `node->tail`, `node->head`, `node->data`, `_state`, `_aborting`, `_joinable`, `result`; plain or through
 `Atomic::…`) is one instruction and starts one micro-step (program counter = index of the access in source order); the thread-local
 computation after it (assignments to locals, branches, the loop back edge) runs on inside the same micro-step until the next shared
 access (`goto pc`), a `return` (`ret`), or calls of modelled functions (`_signal.set()/reset()/wait()`, `_sig.…`, `join()`: `call [f, …] next-pc`;
-a body that begins with such a call gets the entry pseudo program counter 0).
+a body that begins with such a call gets the entry pseudo program counter 0; the instruction after a call is a program counter of its own
+(return address); the bool result of `pop(job)` / `push(job)` is read from `retB` there).
 Locals are numbered in the order of their declaration (`v0, v1, …`; temporaries `x0, x1, …` in order of use), so renaming a local,
 re-formatting, comments and the NSTD_VERIF_YIELD markers do not change the output.
 
@@ -343,13 +346,32 @@ def parse_body(text, fn):
 
 
 # ---- lowering to instructions ---------------------------------------------------------------------------------------------
+def flatten(e):
+    """tokens of an expression tree in order (for comparing argument lists textually)"""
+    if isinstance(e, tuple):
+        if e[0] == "id":
+            return [e[1]]
+        if e[0] == "num":
+            return [e[1]]
+        if e[0] in ("dot", "arrow"):
+            return flatten(e[1]) + ["." if e[0] == "dot" else "->", e[2]]
+        return [e[0]] + [y for x in e[1:] for y in flatten(x)]
+    if isinstance(e, list):
+        return [y for x in e for y in flatten(x)]
+    return [e]
+
+
 class Env:
     """what the names of one class mean in the Lean model.
     shared:  C++ lvalue pattern -> (lean type 'nat'|'optnat'|'optdata', reader template, writer template)   (templates over the state `r`)
     const:   immutable members / parameters -> lean expression
     calls:   modelled calls `obj.method()` -> callee constructor"""
-    def __init__(self, state_var, shared, const, calls, params):
+    def __init__(self, state_var, shared, const, calls, params, alias=None, call_args=None, value_calls=()):
         self.sv, self.shared, self.const, self.calls, self.params = state_var, shared, const, calls, params
+        self.alias = alias or {}            # reference locals -> the member they name
+        self.call_args = call_args or {}    # callee path -> expected argument texts (default: no arguments)
+        self.value_calls = value_calls      # callees whose bool result is used (it is read from `retB` at the return address)
+        self.class_text = None              # text in which `void helper(params) { … }` definitions are looked up (inlined at their call)
 
 
 class Lower:
@@ -387,9 +409,22 @@ class Lower:
         self.ins.append(ins)
 
     # shared locations: ("mem", name) | ("slot", slotexpr(pure lean), field)
+    def path(self, e):
+        """textual path of a member expression (`a`, `a.b`, `a->b`), aliases of reference locals resolved; None for anything else"""
+        if e[0] == "id":
+            return self.env.alias.get(e[1], e[1])
+        if e[0] in ("dot", "arrow"):
+            a = self.path(e[1])
+            if a is None:
+                return None
+            return a + ("." if e[0] == "dot" else "->") + e[2]
+        return None
+
     def loc_of(self, e):
         if e[0] == "id" and e[1] in self.env.shared:
             return ("mem", e[1])
+        if e[0] == "arrow" and e[1][0] == "id" and e[1][1] not in self.locals and self.path(e) in self.env.shared:
+            return ("mem", self.path(e))
         if e[0] == "arrow" and e[1][0] == "id" and e[1][1] in self.locals and self.locals[e[1][1]][1] == "slot":
             key = "->" + e[2]
             if key in self.env.shared:
@@ -420,6 +455,8 @@ class Lower:
             self.refuse(f"unknown name `{e[1]}`")
         if k == "tmp":
             return f"L.{e[1]}", e[2]
+        if k in ("dot", "arrow") and self.path(e) in self.env.const:
+            return self.env.const[self.path(e)]
         if k == "bin":
             a, ta = self.pure(e[2])
             b, tb = self.pure(e[3])
@@ -568,13 +605,15 @@ class Lower:
         self.refuse(f"value of type {t} where {ty} is expected")
 
     def is_model_call(self, e):
-        if e[0] != "call" or e[2]:
+        if e[0] != "call":
             return None
-        if e[1][0] == "dot" and e[1][1][0] == "id":
-            return self.env.calls.get(e[1][1][1] + "." + e[1][2])
-        if e[1][0] == "id":
-            return self.env.calls.get(e[1][1])
-        return None
+        pth = self.path(e[1])
+        if pth is None or pth not in self.env.calls:
+            return None
+        want = self.env.call_args.get(pth, [])
+        if ["".join(map(str, flatten(a))) for a in e[2]] != want:
+            self.refuse(f"call of `{pth}` with arguments other than {want}")
+        return self.env.calls[pth]
 
     def has_model_call(self, e):
         if not isinstance(e, tuple):
@@ -600,6 +639,11 @@ class Lower:
         if c[0] == "not":
             self.cond(c[1], lf, lt)
             return
+        f = self.is_model_call(c)
+        if f is not None and f in self.env.value_calls:
+            self.emit("call", f)
+            self.emit("br", "(retB = true)", lt, lf)       # the return address of the call: its result is in `retB`
+            return
         if self.has_model_call(c):
             self.refuse("the result of a modelled call is used in a condition")
         r = self.rv(c)
@@ -622,6 +666,30 @@ class Lower:
     def stmts(self, ss):
         for s in ss:
             self.stmt(s)
+
+    def inline(self, name, args):
+        """a call of a void member helper defined in the same class: its body is translated in place (parameters must be passed as plain
+        names; `return;` inside it continues after the call)"""
+        ms = list(re.finditer(r"\bvoid\s+" + name + r"\s*\(([^()]*)\)\s*(?:const\s*)?\{", self.env.class_text))
+        if len(ms) != 1:
+            self.refuse(f"call of `{name}`: {len(ms)} definitions `void {name}(…) {{…}}` found, expected exactly one")
+        if getattr(self, "inline_depth", 0) >= 3:
+            self.refuse("helper calls nested too deeply")
+        end = balanced(self.env.class_text, ms[0].end() - 1)
+        body = self.env.class_text[ms[0].end():end - 1]
+        params = [x.strip().split()[-1].lstrip("&*") for x in ms[0].group(1).split(",") if x.strip()]
+        if len(params) != len(args) or any(a[0] != "id" for a in args):
+            self.refuse(f"call of `{name}`: arguments that are not plain names")
+        for prm, a in zip(params, args):
+            if prm != a[1]:
+                body = re.sub(r"\b" + re.escape(prm) + r"\b", a[1], body)
+        out = self.label()
+        self.inline_depth = getattr(self, "inline_depth", 0) + 1
+        self.inline_out = getattr(self, "inline_out", []) + [out]
+        self.stmts(parse_body(body, self.fn + "/" + name))
+        self.inline_out.pop()
+        self.inline_depth -= 1
+        self.emit("label", out)
 
     def stmt(self, s):
         k = s[0]
@@ -668,11 +736,12 @@ class Lower:
             if e[0] == "call" and e[1][0] == "id" and e[1][1] in self.ATOMICS:
                 self.rv(e)
                 return
-            if e[0] == "call" and e[1][0] == "dot" and e[1][1][0] == "id" and (e[1][1][1] + "." + e[1][2]) in self.env.calls and not e[2]:
-                self.emit("call", self.env.calls[e[1][1][1] + "." + e[1][2]])
+            f = self.is_model_call(e) if e[0] == "call" else None
+            if f is not None:
+                self.emit("call", f)
                 return
-            if e[0] == "call" and e[1][0] == "id" and e[1][1] in self.env.calls and not e[2]:
-                self.emit("call", self.env.calls[e[1][1]])
+            if e[0] == "call" and e[1][0] == "id" and self.env.class_text is not None and IDENT.match(e[1][1]):
+                self.inline(e[1][1], e[2])
                 return
             self.refuse(f"expression statement of form `{e[0]}` is outside the translated subset")
         elif k == "pnew":
@@ -717,10 +786,14 @@ class Lower:
             self.emit("jmp", self.breaks[-1])
         elif k == "return":
             e = s[1]
-            if e is None:
+            if getattr(self, "inline_out", []):
+                if e is not None:
+                    self.refuse("`return <value>` inside an inlined helper")
+                self.emit("jmp", self.inline_out[-1])
+            elif e is None:
                 self.emit("ret", None)
-            elif e[0] == "call" and e[1][0] == "dot" and e[1][1][0] == "id" and (e[1][1][1] + "." + e[1][2]) in self.env.calls:
-                self.emit("call", self.env.calls[e[1][1][1] + "." + e[1][2]])
+            elif e[0] == "call" and self.is_model_call(e) is not None:
+                self.emit("call", self.is_model_call(e))
                 self.emit("ret", "callee")
             elif e[0] == "bin" and e[1] in ("&&", "||") and (self.count_shared(e) or self.has_model_call(e)):
                 # return a || f();  ==  if (a) return true; return f();      return a && f();  ==  if (!a) return false; return f();
@@ -760,6 +833,13 @@ class MicroSteps:
         self.ins = low.ins + [("ret", None)]
         self.lab = {x[1]: i for i, x in enumerate(self.ins) if x[0] == "label"}
         self.pcs = [i for i, x in enumerate(self.ins) if x[0] in SHARED_KINDS]
+        # return addresses: the instruction after a sequence of modelled calls is a program counter too (unless the function ends there)
+        for i, x in enumerate(self.ins):
+            if x[0] == "call":
+                j = self.skip(i + 1, set())
+                if self.ins[j][0] not in ("call", "ret") and j not in self.pcs:
+                    self.pcs.append(j)
+        self.pcs.sort()
         first = self.skip(0, set())
         # a body that begins with a modelled call (not with a shared access) gets the entry pseudo program counter 0
         self.entry = not (self.pcs and first == self.pcs[0])
@@ -813,8 +893,8 @@ class MicroSteps:
             out.append(f"let L := {{ L with {x[1]} := {self.rd(x[2])} }}")
         return [ind + l for l in out]
 
-    def walk(self, i, ind, seen):
-        """run-on from instruction i: lean lines ending in a `.goto/.ret/.call`"""
+    def walk(self, i, ind, seen, first=False):
+        """run-on from instruction i: lean lines ending in a `.goto/.ret/.call` (`first`: i is the program counter being rendered)"""
         sv = self.env.sv
         i = self.skip(i, seen)
         x = self.ins[i]
@@ -822,7 +902,7 @@ class MicroSteps:
             self.low.refuse("a loop without a shared access")
         seen = seen | {i}
         k = x[0]
-        if k in SHARED_KINDS:
+        if i in self.pc_of and not first:
             return [f"{ind}({sv}, .goto {self.pc_of[i]} L)"]
         if k == "local":
             return [f"{ind}let L := {{ L with {x[1]} := {x[2]} }}"] + self.walk(i + 1, ind, seen)
@@ -855,11 +935,11 @@ class MicroSteps:
                 j = self.skip(j + 1, set(seen))
             y = self.ins[j]
             cl = "[" + ", ".join("." + f for f in fs) + "]"
-            if y[0] in SHARED_KINDS:
-                return [f"{ind}({sv}, .call {cl} (some {self.pc_of[j]}) L)"]
             if y[0] == "ret" and (y[1] is None or y[1] == "callee"):
                 return [f"{ind}({sv}, .call {cl} none L)"]
-            self.low.refuse("modelled calls must be followed by a shared access or the end of the function")
+            if j in self.pc_of:
+                return [f"{ind}({sv}, .call {cl} (some {self.pc_of[j]}) L)"]
+            self.low.refuse("modelled calls followed by a `return` of a value")
         self.low.refuse(f"internal: instruction {k}")
 
     def render(self, name, params, state_ty, ltype):
@@ -872,14 +952,70 @@ class MicroSteps:
         for n, i in enumerate(self.pcs):
             kw = "if" if n == 0 and not self.entry else "else if"
             lines.append(f"  {kw} pc = {self.pc_of[i]} then")
-            lines += self.access(self.ins[i], "    ")
-            lines += self.walk(i + 1, "    ", set())
+            if self.ins[i][0] in SHARED_KINDS:
+                lines += self.access(self.ins[i], "    ")
+                lines += self.walk(i + 1, "    ", set())
+            else:
+                lines += self.walk(i, "    ", set(), first=True)
         lines.append(f"  else ({sv}, .stuck)")
         return "\n".join(lines)
 
 
 LEAN_TY = {"nat": "Nat", "int": "Int", "slot": "Nat", "optnat": "Option Nat", "optdata": "Option α", "bool": "Bool", "optint": "Option Int"}
 LEAN_DEF = {"nat": "0", "int": "0", "slot": "0", "optnat": "none", "optdata": "none", "bool": "false", "optint": "none"}
+
+
+WORKER_ENV = dict(
+    state_var="p",
+    shared={"_pool->_processedJobs": ("nat", "{r}.processed", "{{ {r} with processed := {v} }}"),
+            "_terminated": ("bool", "false", "{{ {r} with ctxs := {r}.ctxs.map (fun c => if c.tid = some t then {{ c with terminated := {v} }} else c) }}")},
+    const={"job.proc": ("retJob.isSome", "bool")},
+    calls={"_pool->_queue.pop": "pop", "_pool->_enqueuedSignal.reset": "fsResetEnq", "_pool->_enqueuedSignal.wait": "fsWaitEnq",
+           "_pool->_enqueuedSignal.set": "fsSetEnq", "_pool->_dequeuedSignal.set": "fsSetDeq", "job.proc": "jobProc"},
+    call_args={"_pool->_queue.pop": ["job"], "job.proc": ["job.args"]},
+    value_calls=("pop",),
+)
+
+
+RUN_ENV = dict(
+    state_var="p",
+    shared={"_pushedJobs": ("nat", "{r}.pushed", "{{ {r} with pushed := {v} }}"),
+            "_processedJobs": ("nat", "{r}.processed", "{{ {r} with processed := {v} }}"),
+            "_threadCount": ("nat", "{r}.threadCount", "{{ {r} with threadCount := {v} }}")},
+    const={},
+    calls={"_queue.push": "push", "_dequeuedSignal.reset": "fsResetDeq", "_dequeuedSignal.wait": "fsWaitDeq", "_enqueuedSignal.set": "fsSetEnq"},
+    call_args={"_queue.push": ["job"]},
+    value_calls=("push",),
+)
+
+
+def run_prep(body):
+    """the part of run() before the worker-count decision: from the start to the end of the four counter declarations; `Job job = {proc, args};`
+    is the queued job (a parameter of the translated step function)"""
+    body, n = re.subn(r"\bJob\s+job\s*=\s*\{\s*proc\s*,\s*args\s*\}\s*;", "", body)
+    if n != 1:
+        raise Refuse("ThreadPool::run: `Job job = {proc, args};` not found exactly once")
+    k = body.find("Atomic::increment(_pushedJobs)")
+    if k < 0:
+        raise Refuse("ThreadPool::run: `Atomic::increment(_pushedJobs)` not found")
+    m = re.compile(r"\bif\s*\(").search(body, k)
+    if not m:
+        raise Refuse("ThreadPool::run: no decision after the counters")
+    return body[:m.start()], {}
+
+
+def worker_prep(body):
+    """`Job job;` and the reference locals `T &name = _pool->member;` of ThreadContext::proc: the references become aliases"""
+    alias = {}
+
+    def ref(m):
+        alias[m.group(2)] = "_pool->" + m.group(3)
+        return ""
+    body = re.sub(r"(LockFreeQueue\s*<\s*Job\s*>|FastSignal)\s*&\s*(\w+)\s*=\s*_pool\s*->\s*(\w+)\s*;", ref, body)
+    body, n = re.subn(r"\bJob\s+job\s*;", "", body)
+    if n != 1:
+        raise Refuse("ThreadContext::proc: the local `Job job;` is not declared exactly once")
+    return body, alias
 
 
 def locals_struct(name, order, poly):
@@ -909,9 +1045,13 @@ FS_ENV = dict(
 )
 
 
-def compile_fn(src, what, rx, env, params, ret_type, lean_name, lean_params, state_ty, ltype, poly):
+def compile_fn(src, what, rx, env, params, ret_type, lean_name, lean_params, state_ty, ltype, poly, prep=None, class_text=None):
     body, _ = extract(src, what, rx)
-    low = Lower(what, Env(env["state_var"], env["shared"], env["const"], env["calls"], params))
+    alias = {}
+    if prep is not None:
+        body, alias = prep(body)
+    low = Lower(what, Env(env["state_var"], env["shared"], env["const"], env["calls"], params, alias, env.get("call_args"), env.get("value_calls", ())))
+    low.env.class_text = class_text
     low.stmts(parse_body(body, what))
     ms = MicroSteps(low, ret_type)
     lt = f"({ltype} α)" if poly else ltype
@@ -1183,6 +1323,10 @@ def gen_run_decision(src):
             return acts + [".clockStore"]
         if "_idleResetTime" in text or "Time::ticks" in text:
             refuse(f"statement touching the idle clock outside the understood forms: {text[:60]}")
+        if "_thread.start(" in text:
+            # the creation of the worker thread; its failure branch (undoing the reservation, fixes/future/0006) is an environment
+            # choice of the extended system XReachFix (SpawnFail.lean), not part of the decision
+            return acts
         if "++_threadCount" in text or "_threadCount++" in text or "Atomic::increment(_threadCount)" in text:
             return acts + [".spawn"]
         if "--_threadCount" in text or "_threadCount--" in text or "Atomic::decrement(_threadCount)" in text:
@@ -1379,6 +1523,11 @@ open Nstd.Future
 inductive Callee where
   | sigSet | sigReset | sigWait      -- Signal::set / reset / wait of the object's Signal member
   | futJoin                          -- Future<void>::join of the same / the embedded future
+  | pop                              -- the pool queue's pop(job): its result is in `retB` / `retJob` at the return address
+  | fsSetEnq | fsResetEnq | fsWaitEnq | fsSetDeq   -- FastSignal operations on the pool's _enqueuedSignal / _dequeuedSignal
+  | push                             -- the pool queue's push(job)
+  | fsResetDeq | fsWaitDeq
+  | jobProc                          -- job.proc(job.args): Future<…>::proc for the call record of the popped job
   deriving DecidableEq, Repr
 
 /-- outcome of one translated micro-step: continue at the shared access `pc`, return, call a modelled function and continue at `next`
@@ -1414,6 +1563,15 @@ def generate(repo, out):
                             f"fs{fn.capitalize()}Step", "(fs : Nat)", "Pool", f"Fs{fn.capitalize()}L", False)
         parts.append(f"/-! ### FastSignal::{fn} -/\n" + txt)
         counts["fs" + fn] = n
+    txt, n = compile_fn(src, "ThreadContext::proc", r"uint\s+proc\(\s*\)", WORKER_ENV, {}, "Nat", "workerStep", "(t : Tid) (retB : Bool) (retJob : Job)",
+                        "Pool", "WorkerL", False, prep=worker_prep)
+    parts.append("/-! ### ThreadContext::proc (the worker loop) -/\n" + txt)
+    counts["worker loop"] = n
+    pool_cls = class_body(src, "class ThreadPool", r"class\s+ThreadPool\b(?!\s*[;*])")
+    txt, n = compile_fn(src, "ThreadPool::run (push loop and counters)", r"void\s+run\(\s*void\s*\(\s*\*\s*proc\s*\)\s*\(\s*void\s*\*\s*\)\s*,\s*void\s*\*\s*args\s*\)",
+                        RUN_ENV, {}, "Unit", "runPrefixStep", "(retB : Bool)", "Pool", "RunPrefixL", False, prep=run_prep, class_text=pool_cls)
+    parts.append("/-! ### ThreadPool::run: the push loop with back-pressure and the three counter accesses -/\n" + txt)
+    counts["run prefix"] = n
     parts.append("/-! ### LockFreeQueue<T>::LockFreeQueue -/\n" + gen_queue_ctor(src))
     parts.append("/-! ### ThreadPool::ThreadPool -/\n" + gen_pool_ctor(src))
     parts.append("/-! ### ThreadPool::run: counters and conditions -/\n" + gen_run_decision(src))
